@@ -8,10 +8,11 @@ C09_INV = ["TypeOK", "UniqueIds", "NoCrossTalk", "IdBound", "NoIdExhaustion", "A
 C10_INV = ["FailedOnce", "AllFailed"]
 C10_PROPS = ["NothingAfterDeath", "SendRefusedWhenDead"]
 WITNESSES = {"C09": ["Witness_LateResponse", "Witness_Grow", "Witness_SessionOpen", "Witness_Busy", "Witness_StaleTimeout"],
-             "C10": ["Witness_ErroredTwoAtOnce", "Witness_Refused", "Witness_SessionFailed", "Witness_FailWhileEncoding"]}
+             "C10": ["Witness_ErroredTwoAtOnce", "Witness_Refused", "Witness_SessionFailed", "Witness_FailWhileEncoding",
+                     "Witness_BadAnswerWithOthersPending"]}
 
 C10_VARS = {"errs", "cperr", "defunct", "closed"}
-DEATH_ACTIONS = {"SocketError", "Close"}
+DEATH_ACTIONS = {"SocketError", "Close", "RespondCorrupt", "RespondProtoError"}
 
 
 def owner_of(divergence, dead_before):
@@ -47,7 +48,7 @@ def close_fails_sessions(rc):
 
 def run(ctx, pid):
     from harness.replay import connection as rc
-    consts = {"AnyId": False, "MaxId": 2, "InitFree": 1, "Reqs": {1, 2, 3}, "CPReqs": set() if ctx.quick else {3}, "MaxPages": 2,
+    consts = {"BadAnswers": True, "AnyId": False, "MaxId": 2, "InitFree": 1, "Reqs": {1, 2, 3}, "CPReqs": set() if ctx.quick else {3}, "MaxPages": 2,
               "CloseFailsSessions": True, "Busy": not ctx.quick}
     inv = C09_INV + C10_INV
     # the intended design (close() fails paging sessions too) must satisfy the properties
@@ -95,7 +96,7 @@ def run(ctx, pid):
     ctx.note("coverage_zero_actions", zero)
 
     if not ctx.quick:
-        big = {"AnyId": False, "MaxId": 3, "InitFree": 2, "Reqs": {1, 2, 3, 4}, "CPReqs": {3, 4}, "MaxPages": 2, "CloseFailsSessions": intended, "Busy": True}
+        big = {"BadAnswers": True, "AnyId": False, "MaxId": 3, "InitFree": 2, "Reqs": {1, 2, 3, 4}, "CPReqs": {3, 4}, "MaxPages": 2, "CloseFailsSessions": intended, "Busy": True}
         bcfg = tlc.write_cfg(os.path.join(ctx.scratch, "conn_big.cfg"), constants=big, invariants=inv,
                              properties=C10_PROPS, deadlock=False)
         bres = tlc.check_model("Connection", bcfg, ctx.scratch, timeout=3000)
@@ -136,6 +137,7 @@ def run(ctx, pid):
         "Witness_ErroredTwoAtOnce": lambda c, n: fnv(n["st"]).count("errored") >= 2,
         "Witness_Refused": lambda c, n: "refused" in fnv(n["st"]),
         "Witness_SessionFailed": lambda c, n: any(x > 0 for x in fnv(n["cperr"])),
+        "Witness_BadAnswerWithOthersPending": lambda c, n: "failed" in fnv(n["st"]) and "errored" in fnv(n["st"]),
         "Witness_FailWhileEncoding": lambda c, n: any(p == "encode" and t == "errored" for p, t in zip(fnv(n["ph"]), fnv(n["st"]))),
     }
     missing = [w for w in WITNESSES[pid]
@@ -181,8 +183,8 @@ def run(ctx, pid):
     ctx.note("behaviours_replayed", replayed)
 
     # ---- code -> spec: recorded random runs validated by TLC against Trace_Connection.tla
-    tconsts = {"AnyId": True, "MaxId": 3, "InitFree": 1, "Reqs": {1, 2, 3, 4}, "CPReqs": {4}, "MaxPages": 3} if ctx.quick else \
-        {"AnyId": True, "MaxId": 3, "InitFree": 2, "Reqs": {1, 2, 3, 4, 5}, "CPReqs": {2, 4}, "MaxPages": 3}
+    tconsts = {"BadAnswers": True, "AnyId": True, "MaxId": 3, "InitFree": 1, "Reqs": {1, 2, 3, 4}, "CPReqs": {4}, "MaxPages": 3} if ctx.quick else \
+        {"BadAnswers": True, "AnyId": True, "MaxId": 3, "InitFree": 2, "Reqs": {1, 2, 3, 4, 5}, "CPReqs": {2, 4}, "MaxPages": 3}
     tconsts["CloseFailsSessions"] = intended
     tconsts["Busy"] = True
     n_tr = 300 if ctx.quick else 4000
